@@ -69,7 +69,7 @@ def Op.valid (s : Sys) : Op → Bool
   | .ins x p arg | .insn x p _ arg =>
       s.isAlive x && p ≤ (s.w.hdr x).size && (match arg with | .ext _ => true | .self i => i < (s.w.hdr x).size)
   | .insm x p _ => s.isAlive x && p ≤ (s.w.hdr x).size
-  | .insr x p k vs => s.isAlive x && p ≤ (s.w.hdr x).size && (k == .fw || p == (s.w.hdr x).size || vs.isEmpty)
+  | .insr x p _ _ => s.isAlive x && p ≤ (s.w.hdr x).size
   | .era x p => s.isAlive x && p < (s.w.hdr x).size
   | .erar x p q => s.isAlive x && p ≤ q && q ≤ (s.w.hdr x).size
   | .pop x => s.isAlive x && 0 < (s.w.hdr x).size
@@ -108,7 +108,7 @@ def opM (ac : ApiCfg) (s : Sys) : Op → M Int Out
   | .insr x p .inp vs =>
       (if vs.isEmpty then pure p
        else if p = (s.w.hdr x).size then appendRangeInput ac.cfg x false s.nextStream 0 vs   -- hpp:4084: the non-strong overload
-       else throwE .iter) >>= fun i => pure (.idx i)      -- mid-sequence single-pass insert: not modelled (Op.valid excludes it in the driver)
+       else insertRangeInputMid ac.cfg x p s.nextStream vs) >>= fun i => pure (.idx i)   -- via a temporary container
   | .era x p => eraseAt ac.cfg x p >>= fun i => pure (.idx i)
   | .erar x p q => eraseRange ac.cfg x p q >>= fun i => pure (.idx i)
   | .pop x => eraseLast ac.cfg x >>= fun _ => pure .none
@@ -149,9 +149,13 @@ def Sys.step (ac : ApiCfg) (s : Sys) (op : Op) (faults : List Nat) : Res Sys Out
 /-- display: heap blocks are numbered 4, 5, 6, … in allocation order (as the harness numbers them) -/
 def blkStr (b : Nat) : String := if isTmp b then "T" else if isHeap b then toString ((b - heapBase) / 2 + 4) else toString b
 
+/-- a slot: `block.index`; objects on the stack (temporaries, the in-object buffer of a temporary container) are all `T.0`,
+    as the harness cannot tell them apart either -/
+def slotStr (b i : Nat) : String := if isTmp b then "T.0" else s!"{blkStr b}.{i}"
+
 def evStr : Ev → String
-  | .cctor b i => s!"cc{blkStr b}.{i}" | .mctor b i => s!"mc{blkStr b}.{i}" | .vctor b i => s!"vc{blkStr b}.{i}"
-  | .casg b i => s!"ca{blkStr b}.{i}" | .masg b i => s!"ma{blkStr b}.{i}" | .dtor b i => s!"d{blkStr b}.{i}"
+  | .cctor b i => s!"cc{slotStr b i}" | .mctor b i => s!"mc{slotStr b i}" | .vctor b i => s!"vc{slotStr b i}"
+  | .casg b i => s!"ca{slotStr b i}" | .masg b i => s!"ma{slotStr b i}" | .dtor b i => s!"d{slotStr b i}"
   | .alloc b n a => s!"A{blkStr b}:{n}@{a}" | .dealloc b n a => s!"F{blkStr b}:{n}@{a}"
   | .deref s p => s!"*{s}.{p}" | .incr s p => s!"+{s}.{p}"
 
